@@ -1,7 +1,10 @@
 """Hostile code bodies for C03 (and reusable elsewhere): every Markdown control character, backslashes, complete HTML
 tags / comments / PIs / declarations / entities, bare `<` `&`, quotes, Markdown-looking phrases, numeric character
 references WITH `;`.  Never generated on purpose (known regions, see oracle/c03.py): a numeric reference without `;`
-(F-C03-1), `</>` (F-C03-2); tab, CR, STX/ETX (input normalisation, property C09, not C03)."""
+(F-C03-1), `</>` (F-C03-2); tab, CR, STX/ETX (input normalisation, property C09, not C03).
+`exotic` sprinkles the characters that `str.splitlines()` -- but NOT the converter, which splits at "\n" only -- treats as line ends
+(VT, FF, FS, GS, RS, NEL, U+2028, U+2029) and other Unicode white space (NBSP, EM SPACE, IDEOGRAPHIC SPACE) into a body: in code they are
+ordinary characters."""
 
 CHARS = list('*_`\\[](){}#+-.!>|~=:"\'/;<&^$%@?,') + list('abxyz019') + [' '] * 6
 PHRASES = ['*x*', '**b**', '_u_', '__s__', '***', '[a](b)', '![i](s "t")', '[r][id]', '[id]: /u "T"', '# h', '## h ##', '- li', '* li', '1. o',
@@ -23,3 +26,19 @@ def line(rng, lo=1, hi=7):
 def clean(s):
     """remove the shapes that are never generated on purpose (adjacent tokens can form them: then the case is tagged)"""
     return s.replace('\t', ' ').replace('\r', '').replace('\x02', '').replace('\x03', '')
+
+
+LINE_ENDS = ['\x0b', '\x0c', '\x1c', '\x1d', '\x1e', '\x85', '\u2028', '\u2029']      # str.splitlines() boundaries other than \n, \r
+UNI_SPACE = ['\xa0', '\u2003', '\u3000']
+
+
+def exotic(rng, body, k=None):
+    """insert 1..3 exotic white-space characters into `body`: mostly BETWEEN two non-white characters of a line (so that no trimming
+    rule is involved), sometimes anywhere (line start / end, next to a newline)"""
+    for _ in range(k or rng.choice([1, 1, 2, 3])):
+        ch = rng.choice(LINE_ENDS) if rng.random() < 0.8 else rng.choice(UNI_SPACE)
+        inner = [i for i in range(1, len(body)) if not body[i - 1].isspace() and not body[i].isspace()]
+        if inner and rng.random() < 0.7: i = rng.choice(inner)
+        else: i = rng.randint(0, len(body))
+        body = body[:i] + ch + body[i:]
+    return body
